@@ -40,3 +40,9 @@ add("C03", "geometric reference-model postcondition on Grid.diff/interp/min/max 
 add("C04", "global C-grid field cut into rotated faces; expected values from the true edge values of each cell; divergence identity; vector-vs-scalar differential on simple grids",
     "All rotation-only non-reversed topologies up to 3x2 are enumerated; results and the discrete divergence must equal those of the "
     "undivided field bit-exactly.", "2/C04")
+add("C07", "weight-matrix extraction from the real kernel (identity as data) compared with exact rational overlap weights; metamorphic merge/reversal; Grid.transform eager vs dask",
+    "The full linear map of every column is observed and compared with the exact overlap model; conservation, non-negativity, "
+    "bin merging and reversal are judged on what the kernel returned. Runs on the pure-Python numba stand-in.", "2/C07")
+add("C08", "reference-model postcondition (own bracketing search, exact rational formula) at interp_1d_linear and Grid.transform(linear/log), incl. names and dask over non-axis dims",
+    "Every returned value, NaN placement, dimension name and result name is compared with the model for random columns, "
+    "level placements (nodes, ends, outside) and target spellings. Runs on the pure-Python numba stand-in.", "2/C08")
